@@ -442,8 +442,12 @@ impl<'a> FieldInfo<'a> {
         }
     }
 
-    /// Extract the serialized name from field attributes or use the field name.
+    /// Extract the serialized name from field attributes or use the field name (without the `r#`
+    /// of a raw identifier: `r#type` is the field `type`).
     fn get_serialized_name(field: &syn::Field, default_name: &syn::Ident) -> String {
-        parse_zlink_string_attr(&field.attrs, "rename").unwrap_or_else(|| default_name.to_string())
+        use syn::ext::IdentExt;
+
+        parse_zlink_string_attr(&field.attrs, "rename")
+            .unwrap_or_else(|| default_name.unraw().to_string())
     }
 }
